@@ -61,7 +61,7 @@ def gen_template(rng, i):
         else:
             lines.append(g.statement(rng.choice([1, 2, 3]), True))
     text = "\n".join(lines) + "\n"
-    names = sorted(set(PARAM_RE.findall(text)) - set(arrays))
+    names = sorted(set(param_names(text)) - set(arrays))
     return text, names, arrays
 
 
@@ -74,12 +74,26 @@ def values_for(rng, names, arrays):
     return sg
 
 
+STR_SPLIT = re.compile(r'("[^"\n]*")')
+
+
+def outside_strings(text, fn):
+    """apply fn to the parts of the text that are not inside string literals"""
+    return "".join(part if part.startswith('"') else fn(part) for part in STR_SPLIT.split(text))
+
+
+def param_names(text):
+    names = []
+    outside_strings(text, lambda part: names.extend(PARAM_RE.findall(part)) or part)
+    return names
+
+
 def substitute(text, sg, arrays):
     out = text
     for p, (r, c) in arrays.items():
         rows = "\n".join("    " + ", ".join(lit(sg[p][i][j]) for j in range(c)) for i in range(r))
         out = re.sub(r"    \{%s\}" % re.escape(p), lambda m: rows, out)
-    return PARAM_RE.sub(lambda m: lit(sg[m.group(1)]), out)
+    return outside_strings(out, lambda part: PARAM_RE.sub(lambda m: lit(sg[m.group(1)]), part))
 
 
 def close(a, b, tol=1e-9):
